@@ -192,6 +192,8 @@ pub struct Run<'a> {
     pub flush_events: Vec<FlushEvent>,
     /// operations left during which judgement is suspended after Op::FaultNext
     pub fault_hold: u32,
+    /// a library call of the current operation returned an error (any kind)
+    pub lib_err: bool,
 }
 
 /// a point at which flushing or dropping a handle returned: the file must survive any later power cut
@@ -234,6 +236,7 @@ impl<'a> Run<'a> {
             step: 0,
             mount_image: None,
             fault_hold: 0,
+            lib_err: false,
             status_at_mount: vol.status0 & 3,
             last_dec: None,
             pattern_salt: 0,
@@ -378,6 +381,7 @@ impl<'a> Run<'a> {
                 Ok(true)
             }
             Err(e) => {
+                self.lib_err = true;
                 let k = ek(e);
                 self.trace.hit("op_failed");
                 if !errs.contains(&k) {
@@ -525,11 +529,26 @@ impl<'a> Run<'a> {
         }
         if self.fault_hold > 0 {
             // under a (possibly still pending) transient fault: run the call, judge nothing but panics and hangs
+            let fired_before = self.dev.with(|d| d.fired.is_some());
+            let writes_before = self.dev.with(|d| d.n_writes);
+            self.lib_err = false;
             let ran = self.exec_inner(op);
             self.fault_hold -= 1;
-            let fired = self.dev.with(|d| d.fired.is_some());
+            let (fired, fired_in_drop) = self.dev.with(|d| (d.fired.is_some(), d.fired.map_or(false, |c| c.in_drop)));
             if fired {
                 self.trace.hit("fault_fired");
+            }
+            // The fault fired during this operation, outside a destructor, and yet every library call of the operation
+            // reported success: the call claims to have done its work, so it is judged like any other call.
+            if fired && !fired_before && !fired_in_drop && !self.lib_err && matches!(ran, Ok(true)) && matches!(op, Op::Truncate { .. } | Op::Write { .. } | Op::Seek { .. } | Op::CreateFile { .. } | Op::CreateDir { .. } | Op::Remove { .. } | Op::Rename { .. }) {
+                self.trace.hit("fault_swallowed_call_reported_success");
+                let wrote = self.dev.with(|d| d.n_writes) != writes_before;
+                if self.cfg.wants(Aspect::Dirty) && self.cfg.dirty {
+                    self.check_dirty(op)?;
+                }
+                let _ = wrote;
+                // nothing was reported, so nothing excuses the calls that follow either: judgement resumes at once
+                self.fault_hold = 0;
             }
             if self.fault_hold == 0 {
                 self.dev.with(|d| {
@@ -1087,6 +1106,7 @@ impl<'a> Run<'a> {
     fn flush_slot(&mut self, k: usize) -> VResult<()> {
         let res = self.call("flush", |s| session::file_flush(s.files[k].as_mut().unwrap()))?;
         if let Err(e) = res {
+            self.lib_err = true;
             if self.cfg.wants(Aspect::File) {
                 return Err(self.viol(Aspect::File, format!("flush failed with {:?}", ek(&e))));
             }
@@ -1274,6 +1294,9 @@ impl<'a> Run<'a> {
         let seed = seed ^ self.pattern_salt;
         let buf: Vec<u8> = (0..len as u64).map(|i| pattern(seed, mf.pos + i)).collect();
         let res = self.call(&what, |s| session::file_write(s.files[k].as_mut().unwrap(), &buf))?;
+        if res.is_err() {
+            self.lib_err = true;
+        }
         match res {
             Err(e) => {
                 let kd = ek(&e);
@@ -1345,6 +1368,9 @@ impl<'a> Run<'a> {
             fatfs::SeekFrom::End(x) => size as i128 + x as i128,
         };
         let res = self.call(&what, |s| session::file_seek(s.files[k].as_mut().unwrap(), sf))?;
+        if res.is_err() {
+            self.lib_err = true;
+        }
         if target < 0 {
             self.trace.hit("seek_negative");
             match res {
@@ -1386,6 +1412,9 @@ impl<'a> Run<'a> {
         let Some(mf) = self.files[k].clone() else { return Ok(false) };
         let what = format!("truncate at {} of {}", mf.pos, self.model.path_of(mf.node));
         let res = self.call(&what, |s| s.files[k].as_mut().unwrap().truncate())?;
+        if res.is_err() {
+            self.lib_err = true;
+        }
         match res {
             Err(e) => {
                 if self.cfg.wants(Aspect::File) {
